@@ -13,6 +13,24 @@ fn params(pred: i128, colors: i128, columns: i128, bpc: i128, early: i128) -> LZ
     }
 }
 
+/// filter spec: name[:pred:colors:columns:bpc:early]
+fn filter_of(spec: &[u8]) -> Option<StreamFilter> {
+    let s = std::str::from_utf8(spec).ok()?;
+    let mut it = s.split(':');
+    let name = it.next()?;
+    let nums: Vec<i128> = it.map(|x| x.parse::<i128>().unwrap_or(0)).collect();
+    let g = |i: usize, d: i128| nums.get(i).cloned().unwrap_or(d);
+    let p = params(g(0, 1), g(1, 1), g(2, 1), g(3, 8), g(4, 1));
+    Some(match name {
+        "hex" => StreamFilter::ASCIIHexDecode,
+        "a85" => StreamFilter::ASCII85Decode,
+        "rle" => StreamFilter::RunLengthDecode,
+        "lzw" => StreamFilter::LZWDecode(p),
+        "flate" => StreamFilter::FlateDecode(p),
+        _ => return None,
+    })
+}
+
 pub fn dispatch(mode: &str, f: &[Vec<u8>]) -> Option<R> {
     let one = |r: pdf::error::Result<Vec<u8>>| -> R { r.map(|v| vec![v]).map_err(|e| ekind(&e)) };
     Some(match mode {
@@ -25,6 +43,24 @@ pub fn dispatch(mode: &str, f: &[Vec<u8>]) -> Option<R> {
         "unpredict" => {
             let p = params(dec(fld(f, 0)), dec(fld(f, 1)), dec(fld(f, 2)), 8, 1);
             one(flate_decode(fld(f, 4), &p))
+        }
+        // filterspec data
+        "enc" => match filter_of(fld(f, 0)) { Some(fl) => one(encode(fld(f, 1), &fl)), None => return None },
+        "dec" => match filter_of(fld(f, 0)) { Some(fl) => one(decode(fld(f, 1), &fl)), None => return None },
+        // encode then decode with the same filter
+        "encdec" => match filter_of(fld(f, 0)) {
+            Some(fl) => one(encode(fld(f, 1), &fl).and_then(|e| decode(&e, &fl))),
+            None => return None },
+        // chain of filters (fields 0..n-1 are specs, applied in stream order), last field data
+        "decchain" => {
+            let n = f.len();
+            if n == 0 { return None; }
+            let mut data = f[n - 1].clone();
+            for spec in &f[..n - 1] {
+                let fl = match filter_of(spec) { Some(x) => x, None => return None };
+                data = match decode(&data, &fl) { Ok(d) => d, Err(e) => return Some(Err(ekind(&e))) };
+            }
+            Ok(vec![data])
         }
         _ => return None,
     })
